@@ -519,8 +519,71 @@ pub proof fn lemma_numeric_no_nl(b: Seq<u8>, k: int)
             continue
         k = max(encl, key=lambda k: stmts[k][0])
         f.insert_at(m.end(), "\n    " + STEP % (k, k))
-    f.insert_before("Ok((record, consume_leading_newlines(bytes)))", "proof { lemma_consumed_taken(b0, bytes@); }\n    ")
+    f.insert_before("Ok((record, consume_leading_newlines(bytes)))", """proof {
+        lemma_consumed_taken(b0, bytes@);
+        // C05 sub-lemmas: how the record is assembled from the parsed components
+        /*@L:method_iff_argument_list_present:C05*/ assert(match record { ProguardRecord::Method { .. } => arguments is Some, ProguardRecord::Field { .. } => arguments is None, _ => false });
+        /*@L:line_mapping_present_iff_both_obfuscated_lines_positive:C05*/ assert(match record {
+            ProguardRecord::Method { line_mapping, .. } => (line_mapping is Some) == (startline is Some && endline is Some && startline->0 > 0 && endline->0 > 0),
+            _ => true });
+        /*@L:line_mapping_carries_the_parsed_numbers:C05*/ assert(match record {
+            ProguardRecord::Method { line_mapping: Some(lm), .. } => Some(lm.startline) == startline && Some(lm.endline) == endline
+                && lm.original_startline == original_startline && lm.original_endline == original_endline,
+            _ => true });
+        /*@L:end_line_required_after_start_line:C05*/ assert(startline is Some ==> endline is Some);
+        /*@L:original_lines_only_after_argument_list:C05*/ assert((original_startline is Some ==> arguments is Some) && (original_endline is Some ==> original_startline is Some));
+        /*@L:record_strings_are_the_parsed_components:C05*/ assert(match record {
+            ProguardRecord::Field { ty: t, original: o, obfuscated: ob } => t == ty && o == original && ob == obfuscated,
+            ProguardRecord::Method { ty: t, obfuscated: ob, arguments: a, original: o, original_class: oc, .. } => t == ty && ob == obfuscated && Some(a) == arguments
+                && ({ let s = str_bytes(original); match spec_last_dot(s) {
+                        Some(d) => oc is Some && str_bytes(oc->0) == s.subrange(0, d) && str_bytes(o) == s.subrange(d + 1, s.len() as int),
+                        None => oc is None && o == original } }),
+            _ => false });
+    }
+    """)
     u.emit(f)
+
+    # ---------------- parse_proguard_record ----------------
+    f = mp.fn("parse_proguard_record")
+    f.ret("ret")
+    f.props_all = ["C06", "C05", "C19"]; f.props_safety = P13
+    f.replace_all_re(r"bytes\.starts_with\((b\"[^\"]*\")\)", r"shim_starts_with(bytes, \1)", "R2", why="<[u8]>::starts_with behind a shim (documented contract)", min_count=2)
+    f.contract("""    ensures
+        /*@L:progress_on_non_empty_input:C06,C19*/ bytes@.len() > 0 ==> ret.1@.len() < bytes@.len(),
+        /*@L:ok_record_taken_within_first_line:C06*/ ret.0 is Ok ==> taken_within_first_line(skip_nl(bytes@), ret.1@),
+        /*@L:error_consumes_exactly_one_line:C06,C05*/ ret.0 is Err ==> ({ let b = skip_nl(bytes@);
+            ret.0->Err_0.line@ == b.subrange(0, line_end(b)) && ret.1@ == b.subrange(line_end(b), b.len() as int) }),
+        /*@L:rest_is_a_suffix:C06*/ exists|k: int| 0 <= k <= bytes@.len() && ret.1@ == #[trigger] bytes@.subrange(k, bytes@.len() as int),""")
+    f.body_start("let ghost b_in = bytes@;\n    proof { lemma_skip_nl_suffix(b_in); }\n")
+    f.after_stmt("let bytes = consume_leading_newlines(bytes)", "    let ghost b1 = bytes@;\n")
+    f.insert_before("match result {", """proof {
+        let k0 = choose|k: int| 0 <= k <= b_in.len() && #[trigger] b_in.subrange(k, b_in.len() as int) == skip_nl(b_in);
+        if result is Ok {
+            let r = result->Ok_0.1@;
+            let k = choose|k: int| 1 <= k <= b1.len() && no_nl(#[trigger] b1.subrange(0, k)) && r == skip_nl(b1.subrange(k, b1.len() as int));
+            let t = b1.subrange(k, b1.len() as int);
+            lemma_skip_nl_suffix(t);
+            let k2 = choose|k2: int| 0 <= k2 <= t.len() && #[trigger] t.subrange(k2, t.len() as int) == skip_nl(t);
+            assert(b_in.subrange(k0 + k + k2, b_in.len() as int) =~= r);
+        } else {
+            lemma_line_end_bounds(b1);
+            assert(b_in.subrange(k0 + line_end(b1), b_in.len() as int) =~= b1.subrange(line_end(b1), b1.len() as int));
+        }
+    }
+    """)
+    u.emit(f)
+
+    # ---------------- ProguardRecord::try_parse ----------------
+    IMPLR = r"impl<'s> ProguardRecord<'s>"
+    u.raw(mp.impl_header(IMPLR) + "{\n", "glue")
+    f = mp.impl_fn(IMPLR, "try_parse")
+    f.ret("ret")
+    f.props_all = ["C05"]; f.props_safety = P13
+    f.contract("""    ensures
+        /*@L:try_parse_accepts_only_whole_input:C05*/ ret is Ok ==> whole_input_taken(skip_nl(line@)),
+        /*@L:try_parse_trailing_bytes_are_an_error_carrying_the_input:C05*/ (ret is Err && ret->Err_0.line@ != line@) ==> ({ let b = skip_nl(line@); ret->Err_0.line@ == b.subrange(0, line_end(b)) }),""")
+    u.emit(f)
+    u.raw("}\n", "glue")
 
     u.raw(FOOTER, "footer")
     return u
